@@ -49,7 +49,7 @@ extern "C" int h_c14() {
     dump_all(c, "pre", true);
     c.write("a.c3d");
     dump_all(c, "mid", true);
-    save_bigger_object("other.c3d");   // a different, bigger object is saved in between
+    save_bigger_object("b.c3d");       // a different, bigger object is saved in between, at the path the second save then overwrites
     c.write("b.c3d");
     dump_all(c, "post", true);
     __vp_sym_reset();                       // the same symbolic inputs again: an equal object built independently
@@ -61,7 +61,7 @@ extern "C" int h_c14() {
     dump_all(c, "pre", true);
     c.write("a.c3d");
     dump_all(c, "mid", true);
-    save_bigger_object("other.c3d");   // a different, bigger object is saved in between
+    save_bigger_object("b.c3d");       // a different, bigger object is saved in between, at the path the second save then overwrites
     c.write("b.c3d");
     dump_all(c, "post", true);
     ezc3d::c3d c2("in.c3d");
